@@ -451,6 +451,32 @@ impl ArtefactMedium {
                 p.extend_from_slice(&check[..4]);
                 (bs58::encode(p).into_string().into_bytes(), vec![])
             }
+            "address" | "json_address" | "wif" | "xprv" | "xpub" if rng.chance(1, 5) => {
+                // Base58Check with a CORRECT checksum over a payload of the wrong size (from nothing at all to one byte more
+                // than the format has): passes the checksum test and reaches whatever slices the payload afterwards
+                let full = match kind {
+                    "wif" => 34usize,
+                    "xprv" | "xpub" => 78,
+                    _ => 21,
+                };
+                let l = *rng.pick(&[0usize, 0, 1, 2, 3, 4, 5, full - 1, full, full + 1, full / 2]);
+                let mut payload = rng.bytes(l);
+                if l > 0 && rng.chance(1, 2) {
+                    payload[0] = match kind {
+                        "wif" => 0x80,
+                        "xprv" | "xpub" => 0x04,
+                        _ => 0x00,
+                    };
+                }
+                let ck = crate::scen_digest::ref_hash("sha256d", &payload);
+                payload.extend_from_slice(&ck[..4]);
+                let text = bs58::encode(&payload).into_string();
+                if kind == "json_address" {
+                    (serde_json::to_string(&text).unwrap_or_default().into_bytes(), vec![])
+                } else {
+                    (text.into_bytes(), vec![])
+                }
+            }
             "wif" => (rand_key(rng).to_wif().unwrap_or_default().into_bytes(), vec![]),
             "privkey_hex" | "privkey_bytes" => (rand_key(rng).to_bytes(), vec![]),
             "pubkey_hex" | "pubkey_bytes" | "json_pubkey" | "pubkey_decompress" | "pubkey_hex_compress" => {
